@@ -311,7 +311,7 @@ pub fn generate(seed: u64, run: u64, prop: &str) -> Generated {
             }
         }
     }
-    let pu = PuSpec { entries, hash: rp.chance(0.3) };
+    let mut pu = PuSpec { entries, hash: rp.chance(0.3) };
     tags.push(format!("pu:{}{}{}", if row_privacy { "row" } else if direct_orders { "direct" } else if with_name_unit { "name" } else { "id" }, if pu.hash { "+hash" } else { "" }, if weight.is_some() { "+w" } else { "" }));
     tags.push(format!("depth:{}", depth));
     if alias_names {
@@ -464,6 +464,33 @@ pub fn generate(seed: u64, run: u64, prop: &str) -> Generated {
             }
         }
     }
+    // items reference orders through another key than `id` (own stream): the two hops of the
+    // items path then name different referred columns, and orders.id holds other values
+    let mut rrk = Rng::stream(seed, run, "ref_key");
+    let ref_key = depth >= 3 && !direct_orders && rrk.chance(0.15);
+    if ref_key {
+        let idc = orders.col_index("id").unwrap();
+        orders.cols.push(ColSpec { name: "ref".into(), ty: ColType::IntRange { lo: 0, hi: 200000 }, optional: false, unique: false });
+        for r in orders.rows.iter_mut() {
+            let id = match &r[idc] { Cell::Int(i) => *i, _ => 0 };
+            r.push(Cell::Int(id + 50000));
+        }
+        let oc = items.col_index("order_id").unwrap();
+        items.cols[oc].ty = ColType::IntRange { lo: 0, hi: 200000 };
+        for r in items.rows.iter_mut() {
+            if let Cell::Int(i) = &r[oc] {
+                r[oc] = Cell::Int(*i + 50000);
+            }
+        }
+        for e in pu.entries.iter_mut() {
+            for hop in e.path.iter_mut() {
+                if hop.0 == "order_id" && hop.2 == "id" {
+                    hop.2 = "ref".into();
+                }
+            }
+        }
+        tags.push("ref_key".into());
+    }
     // singleton keys (C04): make sure some private key values are held by exactly one unit
     if !benign && rf.chance(0.5) {
         faults.push("singleton_keys".into());
@@ -601,6 +628,13 @@ pub fn generate(seed: u64, run: u64, prop: &str) -> Generated {
             join_tags.push("cross");
         }
     }
+    if ref_key {
+        for f in from.iter_mut() {
+            if let Some(on) = f.on.as_mut() {
+                *on = on.replace("i.order_id = o.id", "i.order_id = o.ref");
+            }
+        }
+    }
     tags.push(format!("from:{}{}", base_t.name, if join_tags.is_empty() { String::new() } else { format!("+{}", join_tags.join("+")) }));
 
     // columns in scope as (qualified name, spec)
@@ -610,7 +644,7 @@ pub fn generate(seed: u64, run: u64, prop: &str) -> Generated {
             cols.push((format!("{}.{}", alias_of(&t.name), c.name), c.clone()));
         }
     }
-    let is_id = |q: &str| q.ends_with(".id") || q.ends_with("_id") || q.ends_with(".w") || q.ends_with(".name");
+    let is_id = |q: &str| q.ends_with(".id") || q.ends_with("_id") || q.ends_with(".w") || q.ends_with(".name") || q.ends_with(".ref");
     let numeric: Vec<&(String, ColSpec)> = cols.iter().filter(|(q, c)| c.ty.is_numeric() && !is_id(q) && q != "r.factor" || q == "r.factor").collect();
     let keyable: Vec<&(String, ColSpec)> = cols.iter().filter(|(q, _)| !is_id(q) && q != "r.factor" && !q.starts_with("r.city")).collect();
 
